@@ -89,6 +89,7 @@ type chist struct {
 	obsMu  sync.Mutex
 	obsSet map[string]bool
 	obsGen int
+	unreliable  atomic.Bool  // the observer could not keep up: the history is not evaluated
 	inCommit    atomic.Bool  // a goroutine is inside Restoration.Commit
 	inWatchList atomic.Int64 // goroutines inside Store.WatchList
 	tagMu  sync.Mutex
@@ -307,6 +308,9 @@ func (h *chist) restore(tid int, r *hx.RNG, snap []*pbresource.Resource) {
 		line: fmt.Sprintf("w %s %s ok", encRes(mstored), hx.EncS(mres.Version))})
 	for deadline := time.Now().Add(10 * time.Second); time.Now().Before(deadline) && !h.observed(evKey(mstored, false)); {
 		time.Sleep(200 * time.Microsecond)
+	}
+	if !h.observed(evKey(mstored, false)) {
+		h.unreliable.Store(true) // the observer is lagging badly (overloaded machine): its commit order will have a hole
 	}
 	c := h.now()
 	rst, err := h.store.Restore()
@@ -670,6 +674,12 @@ func concurrentHistory(run *hx.Run, r *hx.RNG, idx int) {
 		h.stuck(run)
 		return
 	}
+	if !quiescent || h.unreliable.Load() {
+		// without a complete commit order neither the hint nor the monitors are meaningful; this happens
+		// only when the machine is so overloaded that the publisher does not run for 10 s
+		run.Tag("conc:abandoned-observer-incomplete")
+		return
+	}
 	// final listing pins the final state
 	fq := query{g: concType.Group, k: concType.Kind, part: "*", ns: "*"}
 	c = h.now()
@@ -712,6 +722,10 @@ func concurrentHistory(run *hx.Run, r *hx.RNG, idx int) {
 		sigCount[sig]++
 	}
 	h.monitors(obs, viol)
+	if len(h.ws) > 0 && len(lines) > 20 {
+		run.Sample(map[string]any{"case": fmt.Sprintf("concurrent history: %d goroutines, %d operations, %d watchers, %d commits observed", nThreads, len(h.ops), len(h.ws), len(obs)),
+			"first_lines": lines[:8], "verdict_expected": fmt.Sprintf("lin=ok n=%d watches=ok", len(h.ops))})
+	}
 	h.tagMu.Lock()
 	for _, t := range h.tags {
 		run.Tag(t)
@@ -789,6 +803,43 @@ func (h *chist) monitors(obs []sev, viol func(sig, desc string)) {
 				viol("watch:event-never-committed", "the observer received a delete that no successful DeleteCAS with that version explains")
 				break
 			}
+		}
+	}
+	// commit order per resource: every commit presents the version the previous commit on that resource
+	// installed, so the observer's events of one resource must chain (histories with a restore are skipped:
+	// a restore brings old versions back without an event)
+	if ep == 0 {
+		presentedOf := map[string]string{}
+		for _, o := range h.ops {
+			if o.kind == "w" && o.ok {
+				presentedOf[evKey(o.stored, false)] = o.presented
+			}
+		}
+		type last struct {
+			del bool
+			vsn string
+		}
+		prev := map[string]*last{}
+		for _, e := range obs {
+			k := resKey(e.res.Id)
+			p := prev[k]
+			if e.kind == 'x' {
+				if p != nil && (p.del || p.vsn != e.res.Version) {
+					viol("watch:events-out-of-order", "a delete event does not follow the event that installed the deleted version")
+				}
+				prev[k] = &last{del: true}
+				continue
+			}
+			pres, known := presentedOf[evKey(e.res, false)]
+			if known {
+				switch {
+				case pres == "" && p != nil && !p.del:
+					viol("watch:events-out-of-order", "a creation event follows an upsert of the same resource without a delete event in between")
+				case pres != "" && (p == nil || p.del || p.vsn != pres):
+					viol("watch:events-out-of-order", "an update event does not follow the event that installed the version it presented")
+				}
+			}
+			prev[k] = &last{vsn: e.res.Version}
 		}
 	}
 	// (2) uid constant within a lifetime: consecutive upserts of one resource without a delete (or restore) in between
@@ -905,7 +956,7 @@ func (h *chist) monitors(obs []sev, viol func(sig, desc string)) {
 
 func concurrentPart(run *hx.Run) {
 	witnessDeadlock(run)
-	n := run.Scale(150, 1700)
+	n := run.Scale(400, 1700)
 	procs := []int{1, 2, 4, 16}
 	prev := runtime.GOMAXPROCS(0)
 	var total, slowest time.Duration
